@@ -24,13 +24,8 @@ def levenshtein_neighbors(x: Str, alphabet: Str) -> Seq(Str, "generator"):
         and not (insstart(x, i, a) > 0 and a == char_at(x, insstart(x, i, a) - 1))
         and ins_at(x, insstart(x, i, a), a) == ins_at(x, i, a))))),
           name="inserting a letter after equal letters equals inserting it before them")
-    # (i) every yield is a one-edit variant
-    ensures(forall_in(result, lambda y: exists(TInt, TInt, lambda i, k: (
-        (0 <= i and i < len(x) and y == delete_at(x, i))
-        or (0 <= i and i < len(x) and 0 <= k and k < len(alphabet) and char_at(alphabet, k) != char_at(x, i)
-            and y == sub_at(x, i, char_at(alphabet, k)))
-        or (0 <= i and i <= len(x) and 0 <= k and k < len(alphabet) and y == ins_at(x, i, char_at(alphabet, k)))))),
-            name="post[sound]")
+    # (i) every yield is a one-edit variant (index form)
+    ensures(bag_subset(result, one_edit_bag(x, alphabet)), name="post[sound]")
     # (ii) every one-edit variant over the alphabet is yielded
     ensures(forall(TInt, lambda i: implies(0 <= i and i < len(x), member(result, delete_at(x, i), runstart(x, i)))),
             name="post[complete: deletions]", using=["deleting anywhere in a run equals deleting at its start"])
@@ -51,9 +46,7 @@ def levenshtein_neighbors(x: Str, alphabet: Str) -> Seq(Str, "generator"):
 def hamming_neighbors(x: Str, alphabet: Str, variable_positions: NoneType) -> Seq(Str, "generator"):
     requires(distinct_letters(alphabet))
     raises(None)
-    ensures(forall_in(result, lambda y: exists(TInt, TInt, lambda i, k: (
-        0 <= i and i < len(x) and 0 <= k and k < len(alphabet) and char_at(alphabet, k) != char_at(x, i)
-        and y == sub_at(x, i, char_at(alphabet, k))))), name="post[sound]")
+    ensures(bag_subset(result, one_sub_bag(x, alphabet)), name="post[sound]")
     ensures(forall(TInt, TInt, lambda i, k: implies(
         0 <= i and i < len(x) and 0 <= k and k < len(alphabet) and char_at(alphabet, k) != char_at(x, i),
         member(result, sub_at(x, i, char_at(alphabet, k)), i, k))), name="post[complete]")
